@@ -11,8 +11,16 @@
 (*   ret  (client-visible result; what every stream has received so far)   *)
 (* The specification's micro steps are applied to the inputs (operations,  *)
 (* scripts); the observations are judged against the property clauses.     *)
+(*   park (a second application goroutine's SendMsg(i) has written to the  *)
+(*         current stream and is parked before re-taking cs.mu)            *)
+(*   op unpark (it resumes; inline = 1: while the receiver's operation is  *)
+(*         blocked on the current stream), op newrpc (next RPC on the same *)
+(*         channel: the token bucket carries over)                         *)
 (* Clauses = "C18": I_Bound, I_WhenRetry_*, I_Transparent, I_Commit,       *)
-(* I_Replay.  Clauses = "C19": I_BackoffRange, I_PushbackDelay.            *)
+(* I_Replay.  Clauses = "C19": I_BackoffRange, I_PushbackDelay and the     *)
+(* token ledger across RPCs: I_RetriedAtOrBelowHalf (an attempt was made   *)
+(* although the ledger - one token per counted failure, tokenRatio per     *)
+(* success - is at or below maxTokens/2), I_RefusedAboveHalf.              *)
 (***************************************************************************)
 EXTENDS Retry, TraceIO
 CONSTANT Clauses
@@ -49,6 +57,7 @@ Att ==
   ELSE IF pc # "run" \/ ~NeedAttempt
     THEN /\ UNCHANGED <<rvars, opT>> /\ drifted' = TRUE
          /\ M18(TRUE, IF pc # "run" THEN "I_WhenRetry_nofailure" ELSE WhyNot)
+         /\ M19(pc = "run" /\ WhyNot = "I_WhenRetry_throttled", "I_RetriedAtOrBelowHalf")
   ELSE IF ~ScriptOK(s) THEN UNCHANGED <<rvars, opT>> /\ drifted' = TRUE /\ Drift(TRUE, "script_not_applicable", l)
   ELSE /\ NewAttempt(s) /\ UNCHANGED <<drifted, opT>>
        /\ M18(Ev.prev + 1 > EffMax, "I_Bound")
@@ -63,7 +72,9 @@ RetEv ==
   IF drifted THEN Skip
   ELSE IF pc # "run" THEN UNCHANGED <<rvars, opT>> /\ drifted' = TRUE /\ Drift(TRUE, "ret_without_op", l)
   ELSE IF NeedAttempt
-    THEN UNCHANGED <<rvars, opT>> /\ drifted' = TRUE /\ Drift(TRUE, "fewer_attempts_than_the_model", l)
+    THEN /\ UNCHANGED <<rvars, opT>> /\ drifted' = TRUE /\ Drift(TRUE, "fewer_attempts_than_the_model", l)
+         \* refused although the ledger is above half, the code is retryable and attempts are left
+         /\ M19(cfg.thrMax > 0 /\ natt > 0 /\ Ev.res = "err", "I_RefusedAboveHalf")
   ELSE /\ Ret /\ UNCHANGED <<drifted, opT>>
        /\ LET S == Ev.srv IN
           /\ M18(\E k \in 1..Len(S) : ~IsPrefix(S[k], Exp(app')), "I_Replay")
@@ -73,6 +84,13 @@ RetEv ==
 OpEv ==
   IF drifted THEN Skip
   ELSE IF Ev.op = "start" THEN opT' = Ev.t /\ UNCHANGED <<rvars, drifted>>
+  ELSE IF Ev.op = "newrpc" THEN
+         IF NewRPCOK THEN NewRPC /\ opT' = Ev.t /\ UNCHANGED drifted
+         ELSE UNCHANGED <<rvars, opT>> /\ drifted' = TRUE /\ Drift(TRUE, "newrpc_not_enabled", l)
+  ELSE IF Ev.op = "unpark" THEN
+         IF Ev.inline = 1 /\ UnparkInlineOK THEN UnparkInline /\ UNCHANGED <<drifted, opT>>
+         ELSE IF Ev.inline = 0 /\ UnparkOK THEN Unpark /\ opT' = Ev.t /\ UNCHANGED drifted
+         ELSE UNCHANGED <<rvars, opT>> /\ drifted' = TRUE /\ Drift(TRUE, "unpark_not_enabled", l)
   ELSE IF BeginOK(Ev.op, Ev.i) THEN Begin(Ev.op, Ev.i) /\ opT' = Ev.t /\ UNCHANGED drifted
   ELSE UNCHANGED <<rvars, opT>> /\ drifted' = TRUE /\ Drift(TRUE, "operation_not_enabled", l)
 Step ==
@@ -81,6 +99,13 @@ Step ==
                           /\ drifted' = FALSE /\ opT' = 0
     [] Ev.ev = "op" -> OpEv
     [] Ev.ev = "att" -> Att
+    [] Ev.ev = "park" ->
+         IF drifted THEN Skip
+         ELSE IF ParkOK(Ev.i)
+           THEN /\ Park(Ev.i) /\ UNCHANGED <<drifted, opT>>
+                /\ LET S == Ev.srv IN
+                   M18(Len(S) >= natt /\ natt > 0 /\ S[natt] # Exp(cur'.sent), "I_Replay")
+           ELSE UNCHANGED <<rvars, opT>> /\ drifted' = TRUE /\ Drift(TRUE, "park_not_enabled", l)
     [] Ev.ev = "ret" -> RetEv
     [] Ev.ev = "panic" -> Skip /\ Drift(TRUE, "driver_panic", l)
 Next == l <= TLen /\ l' = l + 1 /\ Consumed(l) /\ Step
